@@ -61,7 +61,7 @@ pub fn decode(bytes: &[u8]) -> Case {
     let info = Info::of(&tree);
     let constant = [0.0, 0.0, 1.0, -3.0, 10.0, 2.5][s.below(6)];
     let opts = EfgOpts {
-        constant,
+        unit: 0.0, constant,
         interior: s.bool(),
         share_outcomes: s.bool(),
         unnamed_fraction: 0,
